@@ -41,6 +41,13 @@ fn special_receivers() -> Vec<(String, Box<dyn Fn() -> Envelope>)> {
         { let (base, key, sk, pk, kv) = (base.clone(), key.clone(), sk.clone(), pk.clone(), kv_cur.clone()); let _ = (&base, &key, &sk, &pk, &kv); out.push((format!("'{}': wrapped node", kv.name()), Box::new(move || base.add_assertion(kv.clone(), base.add_assertion("p", "o").wrap_envelope())))); }
     }
     { let (base, key, sk, pk, kv) = (base.clone(), key.clone(), sk.clone(), pk.clone(), kv_cur.clone()); let _ = (&base, &key, &sk, &pk, &kv); out.push(("salted assertion".into(), Box::new(move || base.add_assertion_salted("p", "o", true)))); }
+    // text whose 40th / 20th byte falls inside a multi-byte character (summaries truncate long text)
+    out.push(("long non-ASCII text".into(), Box::new(|| Envelope::new(format!("{}\u{e9}\u{e9}\u{6c34}\u{1f600} and more text after it to be long enough", "a".repeat(39))).add_assertion(format!("{}\u{1f600}\u{1f600}\u{1f600}", "b".repeat(19)), format!("{}\u{6c34}\u{6c34}\u{6c34}{}", "c".repeat(38), "d".repeat(30))))));
+    // an encrypted element whose additional data is present but is not a digest (only a constructor that lets it through makes it a receiver)
+    { let (base, key) = (base.clone(), key.clone()); out.push(("encrypted element with junk additional data".into(), Box::new(move || {
+        let m = key.encrypt(b"content".to_vec(), Some(b"not a digest".to_vec()), None::<bc_components::Nonce>);
+        match Envelope::try_from(m) { Ok(bad) => base.add_assertion("p", bad), Err(_) => base.clone() }
+    }))); }
     { let (base, key, sk, pk, kv) = (base.clone(), key.clone(), sk.clone(), pk.clone(), kv_cur.clone()); let _ = (&base, &key, &sk, &pk, &kv); out.push(("signed + salted signature".into(), Box::new(move || base.add_signature(&sk).add_assertion_salted("p", "o", true)))); }
     { let (base, key, sk, pk, kv) = (base.clone(), key.clone(), sk.clone(), pk.clone(), kv_cur.clone()); let _ = (&base, &key, &sk, &pk, &kv); out.push(("signed, signature assertion decorated".into(), Box::new(move || { let s = base.add_signature(&sk); let a = s.assertions()[0].clone(); s.remove_assertion(a.clone()).add_assertion_envelope(a.add_assertion("k", "v")).unwrap() }))); }
     { let (base, key, sk, pk, kv) = (base.clone(), key.clone(), sk.clone(), pk.clone(), kv_cur.clone()); let _ = (&base, &key, &sk, &pk, &kv); out.push(("recipient, decorated".into(), Box::new(move || { let x = base.encrypt_subject(&key).unwrap().add_recipient(&pk, &key); let a = x.assertions()[0].clone(); x.remove_assertion(a.clone()).add_assertion_envelope(a.add_assertion("k", "v")).unwrap() }))); }
@@ -128,7 +135,7 @@ fn run_op(k: usize, e: &Envelope, arg: &Envelope) -> &'static str {
         56 => o!("walk", { let v = |_: Envelope, _: usize, _: EdgeType, _: Option<&()>| -> Option<&()> { None }; e.walk(false, &v); e.walk(true, &v); }),
         57 => o!("is_* predicates", { let _ = (e.is_leaf(), e.is_node(), e.is_wrapped(), e.is_known_value(), e.is_assertion(), e.is_encrypted(), e.is_compressed(), e.is_elided(), e.is_subject_assertion(), e.is_subject_encrypted(), e.is_subject_compressed(), e.is_subject_elided(), e.is_subject_obscured(), e.is_internal(), e.is_obscured(), e.is_true(), e.is_false(), e.is_null()); }),
         58 => o!("add_assertions/add_assertion_envelopes", { let a = e.assertions(); let _ = arg.add_assertion_envelopes(&a).is_ok(); let _ = arg.add_assertions(&a); let _ = arg.add_assertions_salted(&a, true); }),
-        _ => o!("summary", { let ctx = FormatContext::default(); let _ = e.summary(20, &ctx); let _ = e.format_opt(Some(&ctx)); let _ = e.tree_format_opt(false, Some(&ctx)); let _ = e.hex_opt(true, Some(&ctx)); }),
+        _ => o!("summary", { let ctx = FormatContext::default(); for n in [0usize, 1, 2, 3, 19, 20, 21, 22, 39, 40, 41, 42, 43, 1000] { let _ = e.summary(n, &ctx); for x in e.assertions() { let _ = x.summary(n, &ctx); if let Some(ob) = x.as_object() { let _ = ob.summary(n, &ctx); } if let Some(pr) = x.as_predicate() { let _ = pr.summary(n, &ctx); } } } let _ = e.format_opt(Some(&ctx)); let _ = e.tree_format_opt(false, Some(&ctx)); let _ = e.hex_opt(true, Some(&ctx)); }),
     }
 }
 
